@@ -332,4 +332,14 @@ theorem rowNumberOneAux_eq (key : Row → Val) (t : Table) (pre : Table) (seen :
           rw [this]; simp
       rw [ih (r :: pre) seen hstep']
 
+theorem firstPerKeyAux_map_key (key : Row → Val) (t : Table) (seen : List Val) :
+    (firstPerKeyAux key seen t).map key = dedupValsAux seen (t.map key) := by
+  induction t generalizing seen with
+  | nil => rfl
+  | cons r rs ih =>
+    simp only [firstPerKeyAux, List.map_cons, dedupValsAux]
+    cases hs : seen.contains (key r)
+    · simp [ih]
+    · simp [ih]
+
 end SqlglotModel.Transpile
